@@ -1231,7 +1231,10 @@ fn scenario(seed: u64, want_model: bool) -> Result<Out, Fail> {
 						out.filters.push(f.clone());
 					}
 				}
-				out.traces.push(format!("N{} S{} H{} X{} | {}", node, style, start_height, deltas.join(","), c.trace.join(" ")));
+				// (Z: the splice transaction; whether the monitor lists it depends on whether it had seen the channel
+				// closed before, on a fork too, which the model does not follow)
+				let z = splice_txid.and_then(|t| txidx.get(&t).copied()).map(|i| i.to_string()).unwrap_or("-".to_string());
+				out.traces.push(format!("N{} S{} H{} X{} Z{} | {}", node, style, start_height, deltas.join(","), z, c.trace.join(" ")));
 			}
 		}
 	}
